@@ -240,8 +240,8 @@ def check_used_set(ctx):
     ok = False
     for r in A.returns(fn):
         if isinstance(r.value, ast.Name):
-            tests = G.enclosing_tests(fn, r)
-            ok = any(pol and isinstance(t, ast.Compare) and isinstance(t.ops[0], ast.NotIn) and A.norm(t.left) == r.value.id and A.is_self_attr(t.comparators[0], USED) for t, pol in tests)
+            tests = G.path_conditions(fn, r)
+            ok = any((not pol) and isinstance(t, ast.Compare) and isinstance(t.ops[0], ast.In) and A.norm(t.left) == r.value.id and A.is_self_attr(t.comparators[0], USED) for t, pol in tests)
     ctx.check("C13.U", "_get_unused_physical_qubit:returns-address-not-in-used-set", ok, "the returned physical address is not tested to be outside the used set", repo.loc(m, fn))
     # dropping a module: every non-None entry removed
     cq = ex.methods.get("_clear_qubits")
@@ -257,10 +257,10 @@ def check_used_set(ctx):
             tnames = [x.id for x in ast.walk(lp.target) if isinstance(x, ast.Name)]
             for c in A.calls_in(lp):
                 if is_used_call(c, "remove") and c.args and isinstance(c.args[0], ast.Name) and c.args[0].id in tnames:
-                    # only skipped when None
-                    conds = [t for t, pol in G.enclosing_tests(cq, c)]
-                    skips = [st for st in lp.body if isinstance(st, ast.If) and any(isinstance(x, ast.Continue) for x in st.body)]
-                    ok = not conds and all(A.norm(s.test) == f"{c.args[0].id}isNone" for s in skips)
+                    # the removal is skipped for empty entries only: every fact that holds at the call says "<element> is not None"
+                    el = c.args[0].id
+                    facts = [(A.norm(t), pol) for t, pol in G.path_conditions(cq, c)]
+                    ok = all((n_ == f"{el}isNone" and not pol) or (n_ == f"{el}isnotNone" and pol) for n_, pol in facts)
     ctx.check("C13.U", "_clear_qubits:drop-module-removes-every-mapped-address", ok,
               "stopping an application drops its unit module without removing every mapped physical address from the used set", repo.loc(m, cq))
 
@@ -449,7 +449,16 @@ def check_alloc_guards(ctx, rule="C13.G"):
     free_slot = any(slot_fact(t, pol, um, idx) == 1 for t, pol in G.path_conditions(al, st))
     ctx.check(rule, "_allocate_physical_qubit:only-into-a-free-slot", free_slot, f"the store {src(st)} is not reached only when `{um}[{idx}] is None`: a second allocation silently overwrites the mapping", repo.loc(m, st))
     # the taken slot raises: some `raise` is reached exactly under the fact that the slot is taken
-    raises_taken = any(isinstance(n, ast.Raise) and any(slot_fact(t, pol, um, idx) == -1 for t, pol in G.path_conditions(al, n)) for n in A.body_nodes(al))
+    def exactly_under(fn_, node, wanted, reference):
+        """`node` is reached under a fact for which wanted(t, pol) holds, and under nothing else that does not also hold at `reference`
+        (so the condition is not narrowed by an extra conjunct)"""
+        facts = G.path_conditions(fn_, node)
+        ref = {(A.norm(t), pol) for t, pol in G.path_conditions(fn_, reference)}
+        hit = [f for f in facts if wanted(*f)]
+        extra = [f for f in facts if not wanted(*f) and (A.norm(f[0]), f[1]) not in ref]
+        return bool(hit) and not extra
+
+    raises_taken = any(isinstance(n, ast.Raise) and exactly_under(al, n, lambda t, pol: slot_fact(t, pol, um, idx) == -1, st) for n in A.body_nodes(al))
     ctx.check(rule, "_allocate_physical_qubit:taken-slot-raises", raises_taken, "allocating an already allocated virtual qubit does not raise", repo.loc(m, al))
     # bound check dominates
     strength = "none"
@@ -489,7 +498,7 @@ def check_alloc_guards(ctx, rule="C13.G"):
         return 0
 
     guarded = any(fact(t, pol) == -1 for t, pol in G.path_conditions(fr, st))
-    raises = any(isinstance(n, ast.Raise) and any(fact(t, pol) == 1 for t, pol in G.path_conditions(fr, n)) for n in A.body_nodes(fr))
+    raises = any(isinstance(n, ast.Raise) and exactly_under(fr, n, lambda t, pol: fact(t, pol) == 1, st) for n in A.body_nodes(fr))
     ctx.check(rule, "_free_physical_qubit:empty-slot-raises", guarded and raises, "freeing an unallocated virtual qubit does not raise", repo.loc(m, fr))
     # qalloc / qfree handlers pass the register value to these
     for h, callee in (("_instr_qalloc", "_allocate_physical_qubit"), ("_instr_qfree", "_free_physical_qubit")):
